@@ -14,10 +14,15 @@ RULE = ("Connected oriented triangulated surfaces built by the harness: grids, c
         "subdivides every base to 300-1500 faces, cut_small stays <= ~200), then random face "
         "deletions (new border loops), edge flips, 1-3 splits, triangle edge splits; largest face component kept; optional jitter "
         "(un-jittered regular grids keep exact shortest-path ties), optional roof-like folds (creases for the feature detector), "
-        "vertex/face relabelling. Singularity sets: empty, one, two adjacent, k random, border only, mixed, a vertex with all its "
+        "vertex/face relabelling; coincident positions (the vertex opposite an interior edge copied onto the other opposite "
+        "vertex for 1-4 edges = adjacent faces with one barycentre, or the whole mesh collapsed onto 1-4 positions; the feature "
+        "detector is dropped when a triangle has (near) zero area). Singularity sets: empty, one, two adjacent, k random, border only, mixed, a vertex with all its "
         "neighbours, all vertices; given as a list or as a vertex attribute (as the in-repo callers do). Cutter run without "
         "features, with a FeatureEdgeDetector (sharp edges, declared hard edges) or with an only-border detector. The output "
         "mesh, cut_edges, cut_adj, ref_vertex and cut_graph are compared with topology computed from the raw face lists. "
+        "Sub-check cut_twice cuts the same mesh object a second time with an independent cutter "
+        "(other / same / subset / empty singularity set, features on or off in either order, detector reused or re-run), applies "
+        "every oracle to the second result too and checks that the input mesh's vertices and faces are unchanged. "
         "non-trivial = genus>0 or >=2 distinct singularities or >=2 border loops; distinct = distinct realised case.")
 ASSUMPTIONS = ["input is one connected oriented manifold triangulated surface with a simple 1-skeleton, all vertices used",
                "singular vertices are pairwise distinct valid vertex indices",
@@ -130,6 +135,10 @@ def build_base16(name, a, b, big):
     return G.build_base(name, a, b)
 
 
+# points in general position (no three collinear, pairwise distinct distances are not required)
+COLLAPSE_POSITIONS = [[0.0, 0.0, 0.0], [1.0, 0.0, 0.25], [0.0, 1.0, 0.5], [1.0, 1.5, 1.0], [-1.0, 0.5, 2.0], [0.5, -1.0, 1.5],
+                      [2.0, 0.75, -1.0], [-0.5, -1.5, -0.75], [1.5, -0.5, 2.5]]
+
 OPS16 = {"del": G.op_delete_face, "flip": G.op_edge_flip, "1to3": G.op_tri_1to3, "esplit": op_edge_split_tri}
 
 
@@ -215,7 +224,7 @@ def _pick(draw, n):
 
 
 @st.composite
-def cut_case(draw, big=False):
+def cut_case(draw, big=False, twice=False):
     V, F, tags = draw(trisurface(big=big))
     ref = SurfRef(len(V), F)
     nV = len(V)
@@ -253,6 +262,43 @@ def cut_case(draw, big=False):
             k = _pick(draw, len(S))
             S = S[k:] + S[:k]
     S = list(dict.fromkeys(S))
+    # coincident positions: the property is topological, the geometry only weights the paths
+    degen = draw(st.sampled_from(["no", "no", "no", "no", "dup-opposite", "dup-opposite", "collapse"]))
+    if degen == "dup-opposite":
+        inner = sorted(e for e in ref.uedges if not ref.edge_on_border(*e))
+        done = 0
+        V = [list(v) for v in V]
+        moved = set()
+        for _ in range(draw(st.integers(1, 4))):
+            if not inner:
+                break
+            a, b = inner[_pick(draw, len(inner))]
+            f1, i1 = ref.he[(a, b)]; f2, i2 = ref.he[(b, a)]
+            c, d = F[f1][(i1 + 2) % 3], F[f2][(i2 + 2) % 3]
+            if draw(st.booleans()):
+                c, d = d, c
+            # no zero-length edge may appear: c and d (and whatever already sits on c's position) are not neighbours of d
+            same_as_c = [w for w in range(nV) if V[w] == V[c]]
+            if d in moved or c in moved or any(ref.is_edge(w, d) for w in same_as_c):
+                continue
+            V[d] = list(V[c])          # the two triangles on (a,b) now have the same barycentre
+            moved.add(d); moved.add(c)
+            done += 1
+        tags = tags + (["dup-opposite"] if done else [])
+    elif degen == "collapse":
+        # the whole mesh on few positions: a proper vertex colouring, so that every edge keeps a positive length and
+        # every triangle three positions in general position (many adjacent faces share their barycentre, ties everywhere)
+        order = list(range(nV))
+        rot = _pick(draw, nV)
+        order = order[rot:] + order[:rot]
+        col = {}
+        for v in order:
+            used = {col[w] for w in ref.v2v[v] if w in col}
+            col[v] = min(c for c in range(nV + 1) if c not in used)
+        if max(col.values()) < len(COLLAPSE_POSITIONS):
+            sh = draw(st.integers(0, len(COLLAPSE_POSITIONS) - 1))
+            V = [list(COLLAPSE_POSITIONS[(col[v] + sh) % len(COLLAPSE_POSITIONS)]) for v in range(nV)]
+            tags = tags + [f"collapse={1 + max(col.values())}"]
     feat = draw(st.sampled_from(["detect", "none", "none", "detect", "detect+hard", "only_border"]))
     hard = []
     if feat == "detect+hard":
@@ -266,8 +312,31 @@ def cut_case(draw, big=False):
         if float(ar.min()) < 1e-9 * scale * scale:
             feat, hard = "none", []       # stated assumption: degenerate triangles are cut without a detector
             tags = tags + ["degenerate->no-features"]
-    return {"V": V, "F": F, "tags": tags, "singus": S, "mode": mode, "features": feat, "hard": hard,
+    case = {"V": V, "F": F, "tags": tags, "singus": S, "mode": mode, "features": feat, "hard": hard,
             "singu_form": draw(st.sampled_from(["list", "list", "list", "attribute"]))}
+    if twice:
+        # a second, independent cutter on the very same mesh object
+        how = draw(st.sampled_from(["other", "other", "same", "subset", "empty"]))
+        if how == "same":
+            S2 = list(S)
+        elif how == "subset":
+            S2 = S[::2]
+        elif how == "empty":
+            S2 = []
+        else:
+            S2 = list(dict.fromkeys(_pick(draw, nV) for _ in range(draw(st.integers(1, 5)))))
+        f2 = draw(st.sampled_from(["same", "same", "none", "detect"]))
+        f2 = feat if f2 == "same" else f2
+        if feat == "none" and "degenerate->no-features" in tags:
+            f2 = "none"
+        elif f2 != "none":
+            ar = tri_areas(V, F)
+            scale = float(np.max(np.ptp(np.array(V), axis=0))) or 1.0
+            if float(ar.min()) < 1e-9 * scale * scale:
+                f2 = "none"
+        case["second"] = {"singus": [int(x) for x in S2], "features": f2, "how": how,
+                          "reuse_detector": draw(st.booleans())}
+    return case
 
 
 # --------------------------------------------------------------------------------- oracle (pure function)
@@ -394,12 +463,102 @@ FOURTEEN_B_SIGNATURES = {"disk:one-border-loop", "disk:euler", "singular-on-bord
 def kf_sphere_two_adjacent_singularities(case, violation):
     """DESIGN section 6 row 14b: on a closed genus-0 input whose singular vertices are the two ends of one edge the cut graph
     is that single edge, which an indexed mesh cannot open (neither end gets a second copy)."""
-    if violation.signature not in FOURTEEN_B_SIGNATURES:
+    sig = violation.signature
+    if sig.startswith("second:"):
+        sig = sig[len("second:"):]
+        singus = case["second"]["singus"]
+    else:
+        singus = case["singus"]
+    if sig not in FOURTEEN_B_SIGNATURES:
         return False
-    return is_known_single_edge_sphere(case["F"], case["singus"])
+    return is_known_single_edge_sphere(case["F"], singus)
 
 
 # --------------------------------------------------------------------------------- running the library
+
+def make_detector(ctx, M, m, feat, pre=""):
+    """returns (ok, detector or None)"""
+    if feat == "none":
+        return True, None
+    fd = M.processing.FeatureEdgeDetector(only_border=(feat == "only_border"), verbose=False)
+    ok, _ = ctx.call(pre + "feature-detector", fd.run, m)
+    return ok, fd
+
+
+def cut_and_check(ctx, M, m, V, F, S, feat, fd, sing, pre, info):
+    """one cutter on mesh object m; every oracle, signatures prefixed with `pre`. Returns the cutter or None."""
+    rin = SurfRef(len(V), F)
+    A = np.array(V, dtype=float)
+    scale = max(1.0, float(np.abs(A).max()))
+    ok, cutter = ctx.call(pre + "cutter:init", M.processing.SingularityCutter, m, sing, features=fd)
+    if not ok:
+        return None
+    ok, _ = ctx.call(pre + "cutter:run", cutter.run)
+    if not ok:
+        return None
+    ok, out = ctx.call(pre + "cutter:output_mesh", lambda: cutter.output_mesh)
+    if not ok:
+        return None
+    if not ctx.check(isinstance(out, M.mesh.SurfaceMesh), pre + "output:type", f"output_mesh is a {type(out).__name__}"):
+        return None
+
+    # ---- read what the cutter exposes
+    medges = [tuple(ints(e)) for e in m.edges]
+    ekeys = [key(e) for e in medges]
+    if not ctx.check(set(ekeys) == rin.uedges and len(set(ekeys)) == len(ekeys), pre + "input:edges",
+                     "edge list of the input mesh differs from the edges implied by its faces"):
+        return None
+    ce = cutter.cut_edges
+    good = isinstance(ce, (set, frozenset, list)) and all(isinstance(e, (int, np.integer)) and 0 <= e < len(medges) for e in ce)
+    if not ctx.check(good, pre + "cut_edges:type", f"cut_edges is not a collection of edge indices of the input mesh: {str(ce)[:200]}"):
+        return None
+    ce = set(int(e) for e in ce)
+    cut_keys = set(ekeys[e] for e in ce)
+    outV = [[float(x) for x in v] for v in out.vertices]
+    outF = [ints(f) for f in out.faces]
+    rv = cutter.ref_vertex
+    if isinstance(rv, dict):
+        rv = {int(k): int(v) for k, v in rv.items()}
+
+    for sig, okk, msg in evaluate(V, F, S, outV, outF, rv, cut_keys, scale):
+        ctx.check(okk, pre + sig, msg + f" | singularities {S[:12]}, features={feat}, {info}")
+
+    # ---- cut_adj = adjacency lists of the cut graph (docstring)
+    ca = cutter.cut_adj
+    if ctx.check(isinstance(ca, dict), pre + "cut_adj:type", f"cut_adj is a {type(ca).__name__}"):
+        exp = defaultdict(set)
+        for (a, b) in cut_keys:
+            exp[a].add(b); exp[b].add(a)
+        bad = [(v, sorted(ints(ca.get(v, ()))), sorted(exp.get(v, ()))) for v in range(len(V))
+               if set(ints(ca.get(v, ()))) != exp.get(v, set())]
+        bad += [(v, sorted(ints(ca[v])), []) for v in ca if not (isinstance(v, (int, np.integer)) and 0 <= v < len(V)) and ca[v]]
+        ctx.check(not bad, pre + "cut_adj:matches-cut_edges", f"(vertex, cut_adj, neighbours through cut_edges): {bad[:4]}")
+
+    # ---- cut_graph: "the cut edges as a Polyline"
+    ok, cg = ctx.call(pre + "cut_graph", lambda: cutter.cut_graph)
+    if ok:
+        if ctx.check(isinstance(cg, M.mesh.PolyLine), pre + "cut_graph:type", f"cut_graph is a {type(cg).__name__}"):
+            P = np.array([[float(x) for x in v] for v in cg.vertices], dtype=float).reshape(-1, 3)
+            ge = [tuple(ints(e)) for e in cg.edges]
+            okidx = all(0 <= a < len(P) and 0 <= b < len(P) for a, b in ge)
+            if ctx.check(okidx and len(ge) == len(cut_keys), pre + "cut_graph:edges",
+                         f"cut_graph has {len(ge)} edges over {len(P)} vertices, cut_edges has {len(cut_keys)}"):
+                def seg(p, q):
+                    p = tuple(np.round(np.asarray(p) / (1e-9 * scale)).astype(np.int64)); q = tuple(np.round(np.asarray(q) / (1e-9 * scale)).astype(np.int64))
+                    return (min(p, q), max(p, q))
+                got = sorted(seg(P[a], P[b]) for a, b in ge)
+                want = sorted(seg(A[a], A[b]) for a, b in cut_keys)
+                ctx.check(got == want, pre + "cut_graph:geometry", "segments of cut_graph are not the segments of the cut edges")
+    return cutter
+
+
+def input_unchanged(ctx, m, V, F, sig, when):
+    mv = [[float(x) for x in v] for v in m.vertices]
+    mf = [ints(f) for f in m.faces]
+    ctx.check(mf == [list(f) for f in F], sig, f"the faces of the input mesh object changed {when}")
+    ctx.check(len(mv) == len(V) and (not V or float(np.abs(np.array(mv) - np.array(V, dtype=float)).max()) == 0.0), sig,
+              f"the vertices of the input mesh object changed {when}")
+
 
 def fn(case, ctx):
     import mouette as M
@@ -424,86 +583,63 @@ def fn(case, ctx):
         ctx.label("sphere:two-adjacent(14b)")
     if "jitter" not in case["tags"]:
         ctx.label("exact-ties-possible")
+    # coincident positions (measured on the realised case)
+    A = np.array(V, dtype=float)
+    if len(set(map(tuple, A.tolist()))) < len(V):
+        ctx.label("coincident-vertices")
+        bar = A[np.array(F, dtype=int)].mean(axis=1)
+        same = 0
+        for (a, b) in rin.uedges:
+            if not rin.edge_on_border(a, b):
+                f1 = rin.he[(a, b)][0]; f2 = rin.he[(b, a)][0]
+                if float(np.abs(bar[f1] - bar[f2]).max()) == 0.0:
+                    same += 1
+        if same:
+            ctx.label("adjacent-faces-same-barycentre")
+        if len(set(map(tuple, A.tolist()))) <= 4:
+            ctx.label("collapsed-to<=4-positions")
     ctx.nontrivial(genus > 0 or nS >= 2 or nloops >= 2)
+    info = f"{len(F)} faces, genus {genus}, {nloops} loops"
 
     hard = [tuple(e) for e in case.get("hard", [])]
     m = surface_from(V, F, E=hard or None)
-    A = np.array(V, dtype=float)
-    scale = max(1.0, float(np.abs(A).max()))
-
-    fd = None
-    if feat != "none":
-        fd = M.processing.FeatureEdgeDetector(only_border=(feat == "only_border"), verbose=False)
-        ok, _ = ctx.call("feature-detector", fd.run, m)
-        if not ok:
-            return
+    ok, fd = make_detector(ctx, M, m, feat)
+    if not ok:
+        return
     if case["singu_form"] == "attribute":
         sing = m.vertices.create_attribute("singuls", int)
         for s in S:
             sing[s] = 1 if s % 2 == 0 else -1
     else:
         sing = list(S)
-    ok, cutter = ctx.call("cutter:init", M.processing.SingularityCutter, m, sing, features=fd)
-    if not ok:
-        return
-    ok, _ = ctx.call("cutter:run", cutter.run)
-    if not ok:
+    cutter = cut_and_check(ctx, M, m, V, F, S, feat, fd, sing, "", info)
+    if cutter is None:
         return
     if fd is not None and cutter.has_features:
         ctx.label("feature-path-taken")
-    ok, out = ctx.call("cutter:output_mesh", lambda: cutter.output_mesh)
-    if not ok:
-        return
-    if not ctx.check(isinstance(out, M.mesh.SurfaceMesh), "output:type", f"output_mesh is a {type(out).__name__}"):
-        return
 
-    # ---- read what the cutter exposes
-    medges = [tuple(ints(e)) for e in m.edges]
-    ekeys = [key(e) for e in medges]
-    if not ctx.check(set(ekeys) == rin.uedges and len(set(ekeys)) == len(ekeys), "input:edges",
-                     "edge list of the input mesh differs from the edges implied by its faces"):
+    sec = case.get("second")
+    if sec is None:
         return
-    ce = cutter.cut_edges
-    good = isinstance(ce, (set, frozenset, list)) and all(isinstance(e, (int, np.integer)) and 0 <= e < len(medges) for e in ce)
-    if not ctx.check(good, "cut_edges:type", f"cut_edges is not a collection of edge indices of the input mesh: {str(ce)[:200]}"):
+    # ---- history: the same mesh object is cut again by an independent cutter
+    input_unchanged(ctx, m, V, F, "input-mesh-changed", "during the first cut")
+    S2 = [int(x) for x in sec["singus"]]
+    f2 = sec["features"]
+    if f2 == feat and sec.get("reuse_detector") and fd is not None:
+        fd2 = fd
+    else:
+        ok, fd2 = make_detector(ctx, M, m, f2, "second:")
+        if not ok:
+            return
+    ctx.label("second:how=" + sec["how"], f"second:features {feat}->{f2}")
+    c2 = cut_and_check(ctx, M, m, V, F, S2, f2, fd2, list(S2), "second:", info + f" (second cut of the same mesh object; first cut: singularities {S[:12]}, features={feat})")
+    if c2 is None:
         return
-    ce = set(int(e) for e in ce)
-    cut_keys = set(ekeys[e] for e in ce)
-    outV = [[float(x) for x in v] for v in out.vertices]
-    outF = [ints(f) for f in out.faces]
-    rv = cutter.ref_vertex
-    if isinstance(rv, dict):
-        rv = {int(k): int(v) for k, v in rv.items()}
-
-    for sig, okk, msg in evaluate(V, F, S, outV, outF, rv, cut_keys, scale):
-        ctx.check(okk, sig, msg + f" | singularities {S[:12]}, features={feat}, {len(F)} faces, genus {genus}, {nloops} loops")
-
-    # ---- cut_adj = adjacency lists of the cut graph (docstring)
-    ca = cutter.cut_adj
-    if ctx.check(isinstance(ca, dict), "cut_adj:type", f"cut_adj is a {type(ca).__name__}"):
-        exp = defaultdict(set)
-        for (a, b) in cut_keys:
-            exp[a].add(b); exp[b].add(a)
-        bad = [(v, sorted(ints(ca.get(v, ()))), sorted(exp.get(v, ()))) for v in range(len(V))
-               if set(ints(ca.get(v, ()))) != exp.get(v, set())]
-        bad += [(v, sorted(ints(ca[v])), []) for v in ca if not (isinstance(v, (int, np.integer)) and 0 <= v < len(V)) and ca[v]]
-        ctx.check(not bad, "cut_adj:matches-cut_edges", f"(vertex, cut_adj, neighbours through cut_edges): {bad[:4]}")
-
-    # ---- cut_graph: "the cut edges as a Polyline"
-    ok, cg = ctx.call("cut_graph", lambda: cutter.cut_graph)
-    if ok:
-        if ctx.check(isinstance(cg, M.mesh.PolyLine), "cut_graph:type", f"cut_graph is a {type(cg).__name__}"):
-            P = np.array([[float(x) for x in v] for v in cg.vertices], dtype=float).reshape(-1, 3)
-            ge = [tuple(ints(e)) for e in cg.edges]
-            okidx = all(0 <= a < len(P) and 0 <= b < len(P) for a, b in ge)
-            if ctx.check(okidx and len(ge) == len(cut_keys), "cut_graph:edges",
-                         f"cut_graph has {len(ge)} edges over {len(P)} vertices, cut_edges has {len(cut_keys)}"):
-                def seg(p, q):
-                    p = tuple(np.round(np.asarray(p) / (1e-9 * scale)).astype(np.int64)); q = tuple(np.round(np.asarray(q) / (1e-9 * scale)).astype(np.int64))
-                    return (min(p, q), max(p, q))
-                got = sorted(seg(P[a], P[b]) for a, b in ge)
-                want = sorted(seg(A[a], A[b]) for a, b in cut_keys)
-                ctx.check(got == want, "cut_graph:geometry", "segments of cut_graph are not the segments of the cut edges")
+    if cutter.has_features and fd2 is not None and c2.has_features:
+        ctx.label("second:both-on-feature-path")
+        if set(S2) != set(S):
+            ctx.label("second:both-on-feature-path,different-singularities")
+    input_unchanged(ctx, m, V, F, "second:input-mesh-changed", "during the second cut")
 
 
 def self_test():
@@ -558,8 +694,9 @@ def self_test():
 
 
 SUBCHECKS = [
-    SubCheck("cut_small", cut_case(big=False), fn, quick=1000, thorough=2500),
-    SubCheck("cut_large", cut_case(big=True), fn, quick=80, thorough=400, watchdog=(60, 240)),
+    SubCheck("cut_small", cut_case(big=False), fn, quick=1600, thorough=2500),
+    SubCheck("cut_twice", cut_case(big=False, twice=True), fn, quick=1000, thorough=1500),
+    SubCheck("cut_large", cut_case(big=True), fn, quick=160, thorough=400, watchdog=(60, 240)),
 ]
 
 MATCHERS = {"kf_sphere_two_adjacent_singularities": kf_sphere_two_adjacent_singularities}
